@@ -181,7 +181,8 @@ def _is_future_import_first(import_from):
     """
     found_docstring = False
     for stmt in _iter_stmts(import_from.get_root_node()):
-        if stmt.type == 'string' and not found_docstring:
+        if stmt.type in ('string', 'strings') and not found_docstring:
+            # A docstring may consist of multiple concatenated literals.
             continue
         found_docstring = True
 
